@@ -60,6 +60,18 @@ func sparsePolys(maxTerms int) []uint64 {
 
 var c08Sparse3, c08Sparse2 []uint64
 
+func c08SeqBases() []uint16 {
+	b := []uint16{0, 1, 2, 3, 4, 0x8000, 0xffff, 0xfffe, 0x100b & 0xffff, 0x1234, 0x00ff, 0xff00}
+	for i := 1; i <= 12; i++ {
+		b = append(b, gf16.Exp2(i*5461)) // elements of small and large multiplicative order
+	}
+	return b
+}
+
+func c08SeqExponents() []uint64 {
+	return []uint64{0, 1, 2, 3, 255, 256, 65534, 65535, 65536, 65537, 131070, 1 << 31, 1<<31 + 1, 0xfffffffe, 0xffffffff}
+}
+
 func c08PowExponents() []uint64 {
 	var e []uint64
 	seen := map[uint64]bool{}
@@ -143,6 +155,11 @@ func init() {
 			for lo := uint32(0); lo < 65536; lo += 2048 {
 				g.Emit(&c08Case{Op: "pow_cls", Lo: lo, Hi: lo + 2048})
 			}
+			// call histories: every ordered pair (and selected triples) of field operations back to back in one process
+			for lo := uint32(0); lo < uint32(len(c08SeqBases())); lo += 4 {
+				g.Emit(&c08Case{Op: "pow_seq", Lo: lo, Hi: lo + 4})
+			}
+			g.Emit(&c08Case{Op: "op_seq"})
 			for lo := uint32(0); lo < 4096; lo += 64 {
 				g.Emit(&c08Case{Op: "poly_small", Lo: lo, Hi: lo + 64})
 			}
@@ -241,6 +258,117 @@ func init() {
 				r.AddStates(int(c.Hi-c.Lo) * 65535)
 				r.AddTransitions(int(c.Hi-c.Lo) * 65535)
 				r.Outcome(fmt.Sprint("p", h))
+				r.NontrivialCase()
+			case "pow_seq":
+				// Pow(a,p1) then Pow(b,p2) then Pow(a,p3): every ordered pair of boundary exponents on one base, and every
+				// such pair with a call on another base in between; each answer against the reference
+				bases := c08SeqBases()
+				exps := c08SeqExponents()
+				var h uint64
+				n := 0
+				chk := func(a uint16, p uint64) bool {
+					got := uint16(gf2p16.T(a).Pow(uint32(p)))
+					want := gf16.Pow(a, p)
+					n++
+					h = h*31 + uint64(got)
+					if got != want {
+						r.Violatef("pow-wrong-after-history", "T(%#x).Pow(%d) = %#x, want %#x (after earlier Pow calls in this process)", a, p, got, want)
+						return false
+					}
+					return true
+				}
+				for bi := int(c.Lo); bi < int(c.Hi) && bi < len(bases); bi++ {
+					a := bases[bi]
+					for _, p1 := range exps {
+						for _, p2 := range exps {
+							if !chk(a, p1) || !chk(a, p2) {
+								return
+							}
+						}
+					}
+					other := bases[(bi+1)%len(bases)]
+					for _, p1 := range exps {
+						for _, p2 := range exps {
+							if !chk(a, p1) || !chk(other, p1) || !chk(a, p2) || !chk(other, p2) {
+								return
+							}
+						}
+					}
+				}
+				r.AddStates(n)
+				r.AddTransitions(n)
+				r.Outcome(fmt.Sprint("ps", h))
+				r.NontrivialCase()
+			case "op_seq":
+				// every ordered pair of (operation, operands) over a small operand alphabet, back to back
+				type call struct {
+					op   int
+					a, b uint16
+					p    uint64
+				}
+				alpha := []uint16{0, 1, 2, 3, 0x8000, 0xffff, 0x100b & 0xffff, 0x1234}
+				var calls []call
+				for _, a := range alpha {
+					calls = append(calls, call{op: 2, a: a})
+					for _, b := range alpha {
+						calls = append(calls, call{op: 0, a: a, b: b}, call{op: 1, a: a, b: b})
+					}
+					for _, p := range []uint64{0, 1, 2, 65534, 65535, 65536, 0xffffffff} {
+						calls = append(calls, call{op: 3, a: a, p: p})
+					}
+				}
+				do := func(c call) (uint16, bool) {
+					var got uint16
+					pi := core.Catch(func() {
+						switch c.op {
+						case 0:
+							got = uint16(gf2p16.T(c.a).Times(gf2p16.T(c.b)))
+						case 1:
+							got = uint16(gf2p16.T(c.a).Div(gf2p16.T(c.b)))
+						case 2:
+							got = uint16(gf2p16.T(c.a).Inverse())
+						case 3:
+							got = uint16(gf2p16.T(c.a).Pow(uint32(c.p)))
+						}
+					})
+					return got, pi != nil
+				}
+				want := func(c call) (uint16, bool) {
+					switch c.op {
+					case 0:
+						return gf16.Mul(c.a, c.b), false
+					case 1:
+						if c.b == 0 {
+							return 0, true
+						}
+						return gf16.Mul(c.a, gf16.Inv(c.b)), false
+					case 2:
+						if c.a == 0 {
+							return 0, true
+						}
+						return gf16.Inv(c.a), false
+					}
+					return gf16.Pow(c.a, c.p), false
+				}
+				n := 0
+				var h uint64
+				for _, c1 := range calls {
+					for _, c2 := range calls {
+						for _, cc := range []call{c1, c2} {
+							got, pan := do(cc)
+							w, wpan := want(cc)
+							n++
+							h = h*31 + uint64(got)
+							if pan != wpan || (!pan && got != w) {
+								r.Violatef("field-op-wrong-after-history", "op %d (%#x,%#x,%d) = %#x panic=%v, want %#x panic=%v, after op %d (%#x,%#x,%d)", cc.op, cc.a, cc.b, cc.p, got, pan, w, wpan, c1.op, c1.a, c1.b, c1.p)
+								return
+							}
+						}
+					}
+				}
+				r.AddStates(n)
+				r.AddTransitions(n)
+				r.Outcome(fmt.Sprint("os", h))
 				r.NontrivialCase()
 			case "pow_cls":
 				exps := c08PowExponents()
